@@ -104,7 +104,7 @@ func VH_distinct_Stream() {
 // survives exactly when its own bit of the drawn word is set.
 func VH_distinct_Pass() {
 	size := vCase("size")
-	c, src := vNewCounter(size, 1)
+	c, src := vNewCounter(size, 2)
 	for i := 0; i < size-1; i++ {
 		c.Add(i + 1)
 	}
@@ -113,6 +113,9 @@ func VH_distinct_Pass() {
 	w := src.last
 	vCover("pass")
 	vAssert(vK(c.p) >= 1, "a pass halves the probability")
+	// one 64-bit word carries a coin for each of up to 64 buffered elements; a
+	// second draw can only belong to a second pass (the first removed nothing)
+	vAssert(src.draws == 1 || vK(c.p) >= 2, "one drawn word decides a whole pass over at most 64 elements")
 	if src.draws == 1 {
 		// survivors = number of one bits among the low `size` bits (whatever the iteration order)
 		ones := 0
